@@ -296,6 +296,19 @@ def pred_2d(case):
             if np.abs(vy - poly2(x, y, 0, 1)).max() > tv * 4 * (p2 + 1) ** 2 / r2.min_span:
                 raise Violation("C08:%s:polynomial-slopes" % tag, "d/dx2 of 2-D polynomial not reproduced: %.3e"
                                 % np.abs(vy - poly2(x, y, 0, 1)).max())
+    # ---- the same 2-D interpolator / spline re-used for other data behaves like fresh objects --------
+    other = data[::-1, ::-1] * 0.5 + 1.0
+    with crash_is_violation("C08:interp2d", "2-D compute_interpolant (re-used objects)"):
+        interp.compute_interpolant(other.copy(), spl)
+        again = spl.coeffs.copy()
+        fresh = Spline2D(b1, b2)
+        SplineInterpolator2D(b1, b2).compute_interpolant(other.copy(), fresh)
+        interp.compute_interpolant(data.copy(), spl)
+    if not np.array_equal(again, fresh.coeffs):
+        raise Violation("C08:%s:reuse" % tag, "a re-used 2-D interpolator gives coefficients differing by %.3e from a fresh one"
+                        % np.abs(again - fresh.coeffs).max())
+    if not np.array_equal(spl.coeffs, C):
+        raise Violation("C08:%s:reuse" % tag, "interpolating the first 2-D data again does not reproduce the first coefficients")
     mixed = s1["periodic"] != s2["periodic"]
     return {"nontrivial": mixed or float(np.ptp(data)) > 0, "labels": [tag, case["kind"]]}
 
